@@ -58,6 +58,14 @@ func c02Run(r *sim.Run) {
 	r.Event("node", int(sim.HashString(nd.desc)&0xffff))
 	var sizeBefore uint64
 	r.Guard("Size", func() { sizeBefore = o.Size() })
+	// which encoder touches the structure first matters when trun optimisation rewrites it during the first encoding
+	var swFirst []byte
+	if t.Chance(250) {
+		if out, err, _ := encodeSWTo(r, "EncodeSW(first)", o, int(sizeBefore)+64+t.Draw(64)); err == nil {
+			swFirst = append([]byte(nil), out...)
+			r.Probe("slice-writer-encodes-first")
+		}
+	}
 	clean := sim.NewSink(nil)
 	clean.KeepB = true
 	if err := encodeTo(r, "Encode(clean)", o, clean); err != nil {
@@ -79,6 +87,9 @@ func c02Run(r *sim.Run) {
 		return
 	}
 	M := append([]byte(nil), clean.Buf...)
+	if swFirst != nil && !bytes.Equal(swFirst, M) {
+		r.Violate("c02-reencode-differs", "%s: EncodeSW first wrote %d bytes, Encode right after it %d bytes that differ from them at %d (same structure encoded twice)", nd.desc, len(swFirst), len(M), firstDiff(swFirst, M))
+	}
 	W := clean.Writes
 	bounds := append([]int(nil), clean.Bounds...)
 	var sizeAfter uint64
